@@ -170,3 +170,19 @@ def replay(ctx, rep):
     print('disagreements:', res.disagreements)
     print('oracle failures:', res.oracle_failures)
     return 1 if (res.disagreements or res.oracle_failures) else 0
+
+
+def shrink(ctx, failure):
+    """smallest log (by lines) on which the same oracle signature still fails"""
+    case = failure['case']
+    if len(case['files']) != 1 or case['files'][0] is None:
+        return None
+    lines = bytes.fromhex(case['files'][0]).split(b'\n')
+
+    def still(ls):
+        c = dict(case, files=[b'\n'.join(ls).hex()])
+        r = common.Result()
+        evaluate(ctx, [c], r)
+        return any(x.get('signature') == failure.get('signature') for x in r.oracle_failures)
+    small = common.ddmin(lines, still, budget=40)
+    return dict(case, files=[b'\n'.join(small).hex()])
